@@ -154,7 +154,8 @@ pub fn mutate(p: &mut Program, t: &mut Tape, k: usize) -> Vec<&'static str> {
                     *f = ["a", "b", "x", "y", "_0", "_1", "zz"][a % 7].to_string();
                     "change_projection"
                 }
-                (8, Tm::Tuple(xs)) if xs.len() >= 2 => {
+                // (a one-element tuple does not exist: `(x)` is `x`)
+                (8, Tm::Tuple(xs)) if xs.len() >= 3 => {
                     xs.pop();
                     "drop_tuple_element"
                 }
